@@ -695,7 +695,15 @@ func New() Beacon {
 func (b *beacon) GetAll() map[string]treasure.Treasure {
 	b.mu.RLock()
 	defer b.mu.RUnlock()
-	return b.treasuresByKeys
+	// Hand out a copy made under the lock. The callers iterate over the result after
+	// the lock has been released; iterating over the live map while another request
+	// adds or deletes a treasure is a fatal "concurrent map iteration and map write"
+	// that no recover() can catch - it takes the whole server down.
+	all := make(map[string]treasure.Treasure, len(b.treasuresByKeys))
+	for key, treasureObj := range b.treasuresByKeys {
+		all[key] = treasureObj
+	}
+	return all
 }
 
 type IterationType int
